@@ -376,3 +376,16 @@ Proof.
   - by apply G_bad.
   - intros e c. by apply G_causes.
 Qed.
+
+(* Stop while a stat / wstat / read / write is inside its file-system call *)
+Lemma c13_stop_inflight s o ts f :
+  reach s → op_simple_fid o = Some f →
+  let s3 := (inflight_stop s o ts).2.1.1 in
+  NoDup (rel s3) ∧ (∀ f' e, ¬ B s3 f' e) ∧
+  (∀ e, e ∈ bound_ever s3 → e ∈ rel s3) ∧ bad_use s3 = [] ∧
+  bound_ever s3 = bound_ever (sstep s o ts).1.1.
+Proof.
+  intros Hr Hf. cbn zeta.
+  destruct (inflight_stop_G s o ts f (reach_WF _ Hr) (reach_G _ Hr) Hf) as (HG & Hnb & Hbe & Hall).
+  split_and!; try done; [by apply G_nodup|by apply G_bad].
+Qed.
